@@ -304,7 +304,9 @@ class ParallelTempering:
         # (a cycle faster than the resolution of the clock is counted as 10 ms)
         N = max(1, int(2.0 / max(t2 - t1, 1e-2)))
 
-        while time() < end_time:
+        # (elapsed time is compared with the budget: a budget below the spacing of
+        # the clock's absolute readings would be rounded away in start_time + run_time)
+        while time() - start_time < run_time:
             for i in range(N):
                 self.take_steps(swap_interval)
                 self.swap()
